@@ -128,6 +128,8 @@ def dec(x):
             return range(*x["r"])
         if "e" in x:
             return Elems(x["e"])
+        if "cp" in x:
+            return Elems(x["cp"])
         if "d" in x:
             return {dec(k): dec(v) for k, v in x["d"]}
         if "f" in x:
